@@ -96,6 +96,19 @@ def run(ctx, rep):
     rep.rule("W6", "squared error: gradient = 2*sum B(dv, v), Hessian = 2*sum [B(dv_a, dv_b) + B(d2v, v)] for value = sum B(v, v), "
                    "v = p(x) - q (fast path 2 A^T W (A x + b - q)); relative entropy: value/gradient/Hessian use the same (q, p) order "
                    "and the same weight factor", floor=6)
+    rep.rule("W8", "loss functions: no loop reads a variable that only an EARLIER loop binds (the value left behind by that loop - e.g. the shot "
+                   "count of the last schedule entry - would be used for every item)", floor=1)
+    from ..loops import stale_loop_variable_reads, count_loops
+    PFX = ("quara.loss_function", "quara.interface.cvxpy.qtomography.standard.loss_function")
+    stale = list(stale_loop_variable_reads(ctx, PFX))
+    for f_, x_, lp_ in stale:
+        rep.violation("W8", f_, "%s read at line %d" % (x_.id, x_.lineno), "`%s` is bound only by the loop at line %d, which has ended; the loop that reads it here "
+                      "gets the value of that loop's LAST item in every iteration" % (x_.id, lp_.lineno), node=x_)
+    nl = count_loops(ctx, PFX)
+    if nl and not stale:
+        rep.holds("W8", "quara.loss_function", "%d loops" % nl, "every loop variable is read inside its own loop (or after it, outside any loop)")
+    elif not nl:
+        rep.undecided("W8", "quara.loss_function", "loops", "no loops found")
     d = Definedness(ctx.res)
     for cq, (oq, wfield, dfield) in CLASSES.items():
         c = ix.cls(cq)
